@@ -28,6 +28,7 @@ import LogosModel.TypeSubst
 import LogosModel.Panic
 import LogosModel.Utf8Enc
 import LogosModel.Chunked
+import LogosModel.PrioritySat
 import LogosModel.Look.Utf8ClosedC
 import Std.Data.HashMap
 import LogosModel.Source
@@ -515,7 +516,7 @@ def answer (c : Case) (q : List String) : String :=
   | ["UTF8SEQ"] => " ".intercalate (c.hirs.toList.map fun h => if Utf8Enc.hirClassesExact h then "1" else "0")
   | ["CLSOK"] => " ".intercalate (c.hirs.toList.map fun h => if h.clsOK then "1" else "0")
   | ["GREEDY"] => " ".intercalate (c.hirs.toList.map fun h => if h.greedyFixed then "1" else "0")
-  | ["PRIO"] => " ".intercalate (c.hirs.toList.map fun h => toString h.complexity)
+  | ["PRIO"] => " ".intercalate (c.hirs.toList.map fun h => toString h.complexityS)   -- the code computes in usize, saturating (PrioritySat.complexityS_eq)
   | ["NULLABLE"] => " ".intercalate (c.hirs.toList.map fun h =>
       if h.hasLook then
         (if !LK.looksOK h then "L" else
